@@ -97,6 +97,7 @@ class NFEval:
         self.opaque_count = 0
         self.sums = {}            # atom key -> Sum (for flattening c*(a+b) inside sums)
         self.funcs = {}           # atom key -> (function name, argument normal form) for atoms that can be differentiated
+        self.factor_symbolic = False   # opt-in: sum atoms are made with the symbolic powers of their first term factored out
         self.sample = None        # optional {atom key: number}: a point of the domain, used to orient sum atoms
 
     # -- constructors ----------------------------------------------------
@@ -151,6 +152,27 @@ class NFEval:
         if isinstance(x, Sum):
             if len(x.terms) == 1:
                 return x.terms[0]
+            if self.factor_symbolic:
+                # x = m0 * (x / m0) with m0 the parameter-dependent powers of the first term: the terms of a
+                # derivative or a residual differ from each other by integer powers only, so the remaining sum
+                # has ground exponents and the (expensive) symbolic powers appear once, outside the atom
+                m0 = {k: e for k, e in x.terms[0].f.items() if not self._ground_exp(e)}
+                if m0:
+                    inv0 = Mono(Fraction(1), {k: -e for k, e in m0.items()})
+                    rest = None
+                    for t in x.terms:
+                        q = self.mul(t, inv0)
+                        rest = q if rest is None else self.add(rest, q)
+                    if isinstance(rest, Sum) and not any(k in t.f and not self._ground_exp(t.f[k])
+                                                         for t in rest.terms[:1] for k in m0):
+                        self.factor_symbolic = False
+                        try:
+                            inner = self.as_mono(rest)
+                        finally:
+                            self.factor_symbolic = True
+                        return self.mul(Mono(Fraction(1), m0), inner)
+                    if isinstance(rest, Mono):
+                        return self.mul(Mono(Fraction(1), m0), rest)
             # factor out the rational content (coefficient of the first term in canonical
             # order) so that (2a+2b), (a+b) and (a/2+b/2) share one atom
             c = abs(x.terms[0].coef)      # positive content only: no sign is pulled out of a root
@@ -166,6 +188,13 @@ class NFEval:
             self.sums[k] = x
             return Mono(c, {k: self.one})
         raise TypeError(x)
+
+    @staticmethod
+    def _ground_exp(e):
+        try:
+            return bool(e.numer.is_ground and e.denom.is_ground)
+        except Exception:
+            return True
 
     def numeric(self, x, depth=0):
         """Value of a normal form at the declared sample point (floats; for signs only). Opaque atoms count as
